@@ -597,6 +597,21 @@ pub struct HistCfg {
     pub target_pct: u32,
 }
 
+/// turn a configuration into a "dense chains" one: hundreds of keys in a table of 1..4 buckets
+/// (or 8 via Capacity), mostly inserts, so that bucket chains grow far beyond 256 entries
+pub fn make_dense(cfg: &mut HistCfg, thorough: bool) {
+    cfg.allow_lt8 = true;
+    cfg.max_buckets = 4;
+    cfg.n_keys = if thorough { 260..=1500 } else { 260..=700 };
+    cfg.key = KeyProfile::Short;
+    cfg.ops.n_ops = if thorough { 700..=4000 } else { 700..=1800 };
+    cfg.ops.val = ValProfile::Small;
+    cfg.ops.w.put = 70;
+    cfg.ops.w.del = 8;
+    cfg.ops.w.get = 14;
+    cfg.target_pct = 0;
+}
+
 pub fn history_strategy(cfg: HistCfg) -> BoxedStrategy<History> {
     let kts = cfg.kts.clone();
     let cfg2 = cfg.clone();
@@ -651,7 +666,8 @@ pub fn history_strategy(cfg: HistCfg) -> BoxedStrategy<History> {
                             kt,
                             params: p,
                             keys: keys.clone(),
-                        }],
+                late: false,
+            }],
                         ops,
                         obs: obs.clone(),
                         excluded: ex,
